@@ -136,6 +136,26 @@ static int vf_pending_fds_now, n_closed;
 int _dbus_connection_get_pending_fds_count (DBusConnection *c) { return vf_pending_fds_now; }
 int bus_context_get_pending_fd_timeout (BusContext *c) { return 4242; }
 static int closed_mask;
+/* ---- OP 9 environment: completion of a connection (Hello) with every fallible step symbolic ---- */
+static int uid_count, cfg_max_completed = 100, cfg_max_per_user = 100, str_fail_at, str_calls, have_uid = 1, n_watch_checks;
+static int sfail (void) { str_calls++; return str_fail_at && str_calls == str_fail_at; }
+void *_dbus_hash_table_lookup_uintptr (DBusHashTable *h, uintptr_t k) { return _DBUS_INT_TO_POINTER (uid_count); }
+dbus_bool_t _dbus_hash_table_insert_uintptr (DBusHashTable *h, uintptr_t k, void *v) { if (sfail ()) return 0; uid_count = _DBUS_POINTER_TO_INT (v); return 1; }
+dbus_bool_t _dbus_hash_table_remove_uintptr (DBusHashTable *h, uintptr_t k) { uid_count = 0; return 1; }
+int bus_context_get_max_completed_connections (BusContext *c) { return cfg_max_completed; }
+int bus_context_get_max_connections_per_user (BusContext *c) { return cfg_max_per_user; }
+dbus_bool_t dbus_connection_get_unix_user (DBusConnection *c, unsigned long *uid) { *uid = 1000; return have_uid; }
+dbus_bool_t _dbus_string_copy_data (const DBusString *s, char **out) { char *nm; if (sfail ()) return 0; nm = malloc (8); VF_ASSUME (nm != 0); nm[0] = ':'; nm[1] = 0; *out = nm; return 1; }
+static int policy_tok;
+BusClientPolicy *bus_context_create_client_policy (BusContext *c, DBusConnection *conn, DBusError *e) { if (sfail ()) { e->name = DBUS_ERROR_NO_MEMORY; e->message = "m"; return 0; } return (BusClientPolicy *) &policy_tok; }
+void bus_client_policy_unref (BusClientPolicy *p) { }
+void bus_context_check_all_watches (BusContext *c) { n_watch_checks++; }
+DBusCredentials *_dbus_connection_get_credentials (DBusConnection *c) { return 0; }
+dbus_bool_t _dbus_string_init (DBusString *s) { return !sfail (); }
+void _dbus_string_free (DBusString *s) { }
+dbus_bool_t _dbus_string_append_printf (DBusString *s, const char *f, ...) { return !sfail (); }
+dbus_bool_t _dbus_string_append_byte (DBusString *s, unsigned char b) { return !sfail (); }
+dbus_bool_t _dbus_string_steal_data (DBusString *s, char **out) { char *li; if (sfail ()) return 0; li = malloc (8); VF_ASSUME (li != 0); li[0] = 0; *out = li; return 1; }
 void dbus_connection_close (DBusConnection *c) { int i; n_closed++; for (i = 0; i < NC; i++) if (c == cnp[i]) closed_mask |= 1 << i; }
 dbus_bool_t bus_containers_connection_is_contained (DBusConnection *c, const char **path, const char **type, const char **name) { return FALSE; }
 
@@ -362,6 +382,45 @@ void harness (void)
     else if ((closed_mask & 3) == 1 && e1 <= ((long) at - 1) * 1000) VF_ASSERT (et.enabled && et.interval >= at - e1 / 1000 - 2 && et.interval <= at - e1 / 1000 + 1, "timer re-armed for the oldest survivor");
     if ((closed_mask & 3) == 1) VF_WITNESS_OPT ("one of two incomplete connections expired");
     if ((closed_mask & 3) == 3) VF_WITNESS_OPT ("both expired");
+  }
+#elif OP == 9
+  {
+    /* C13 / C14: one Hello completing connection 0.  Limits: after a completion that the limit check admitted, the number of completed connections and the
+     * per-user count are within max_completed_connections / max_connections_per_user (inductive).  OOM: a completion that fails leaves every counter,
+     * the lists, the name and the policy as they were — in particular the per-user count (finding F17 if not). */
+    static DBusList l0; static DBusString nm; static struct DBusTimeout et; int n0, u0, i0; dbus_bool_t admitted, done; const char *ln = 0; int lv = 0; static char heapname;
+    cfg_max_completed = vf_range (1, 1000); cfg_max_per_user = vf_range (1, 1000);
+    conns.n_completed = n0 = vf_range (0, 1000); uid_count = u0 = vf_range (0, 1000); VF_ASSUME (n0 <= cfg_max_completed && u0 <= cfg_max_per_user && u0 <= n0);     /* inductive hypothesis */
+    have_uid = vf_bool (); str_fail_at = vf_range (0, 8); str_calls = 0;
+    l0.data = cnp[0]; l0.next = l0.prev = &l0; conns.incomplete = &l0; conns.n_incomplete = i0 = 1; conns.completed = 0; conns.expire_timeout = &et; vf_now_set = 1;
+    cdp[0]->link_in_connection_list = &l0; cdp[0]->name = 0; cdp[0]->policy = 0;
+    admitted = bus_connections_check_limits (&conns, cnp[0], &ln, &lv, &err);
+    if (!admitted)
+      {
+        VF_ASSERT (vf_err_name && strcmp (vf_err_name, DBUS_ERROR_LIMITS_EXCEEDED) == 0, "a refused completion is reported as LimitsExceeded");
+        VF_ASSERT (n0 >= cfg_max_completed || (have_uid && u0 >= cfg_max_per_user), "refused only at a limit");
+        VF_ASSERT (conns.n_completed == n0 && uid_count == u0, "and changes nothing");
+        VF_WITNESS_OPT ("connection limit reached");
+      }
+    else
+      {
+        VF_ASSERT (n0 < cfg_max_completed && (!have_uid || u0 < cfg_max_per_user), "admitted only below both limits");
+        str_calls = 0;
+        done = bus_connection_complete (cnp[0], &nm, &err);
+        VF_ASSERT (conns.n_completed <= cfg_max_completed && uid_count <= cfg_max_per_user, "the configured connection limits are never exceeded");
+        if (done)
+          {
+            VF_ASSERT (conns.n_completed == n0 + 1 && uid_count == u0 + (have_uid ? 1 : 0) && conns.n_incomplete == i0 - 1 && cdp[0]->name != 0 && cdp[0]->policy != 0, "a completed connection is counted once, globally and for its user");
+            VF_ASSERT (n_watch_checks >= 1, "and the accept watches are re-evaluated (the incomplete count dropped)");
+            VF_WITNESS_OPT ("connection completed");
+          }
+        else
+          {
+            VF_ASSERT (conns.n_completed == n0 && conns.n_incomplete == i0 && cdp[0]->name == 0 && cdp[0]->policy == 0 && conns.incomplete == &l0, "a failed completion leaves the lists, counters, name and policy as they were");
+            VF_FINDING (uid_count == u0, "F17-failed-completion-leaks-per-user-count");
+            VF_WITNESS_OPT ("completion failed for lack of memory");
+          }
+      }
   }
 #elif OP == 4
   {
